@@ -7,10 +7,11 @@
    symbols of the alphabet followed by a run of '=', the symbols regroup to the returned bytes with the left-over
    bits ARBITRARY; the string is the encoder's (EncodeNoPadding) output iff there is no '=' and the left-over bits
    are zero ([b32_dec_inv], [b32_dec_canonical]).
-   Part 3: consequences per family.  Stellar (35 bytes = 56 symbols), Nimiq (20 bytes = 32 symbols): no left-over
-   bits, canonical.  Algorand (36 bytes, 58 symbols, 2 spare bits), Filecoin (24 bytes, 39 symbols, 3 spare bits):
-   NOT canonical -- refuted with concrete strings; Nano: the three pad bytes in front are not compared with zero --
-   refuted. *)
+   Part 3: consequences per family.  Stellar (35 bytes = 56 symbols), Nimiq (20 bytes = 32 symbols), Nano (40 bytes =
+   64 symbols): no left-over bits.  Algorand (36 bytes, 58 symbols, 2 spare bits), Filecoin (24 bytes, 39 symbols, 3 spare
+   bits): the decoders re-encode the decoded bytes and compare (findings C10-ALGO-NONCANON / C10-FIL-NONCANON, fixed);
+   Nano compares the three pad bytes with zero (C10-NANO-PADBITS, fixed).  For every family: accepted <-> the string
+   is the encoder's output for a valid key (resp. for the returned hash). *)
 From Coq Require Import NArith ZArith Arith List Bool Lia.
 From BU Require Import Base.Exn Base.Radix Base.Bytes Gen.Consts Gen.CodecConsts Gen.AddrConsts Gen.AddrTextConsts
   Model.Base58 Model.Base32 Model.Codecs Model.AddrUtils Model.AddrB58 Model.AddrText.
@@ -25,22 +26,33 @@ Section Generic.
   Variable blake2b : nat -> list N -> list N.
   Variable valid_pub : N -> list N -> bool.
   Variable crc16_xmodem : list N -> list N.
+  Variable b32_enc_nopad : option (list N) -> list N -> res (list N).
   Variable b32_dec : option (list N) -> list N -> res (list N).
 
-  Theorem algo_accepts_iff s pub :
-    algo_decode sha512_256 valid_pub b32_dec s = Ok pub <->
-    b32_dec None s = Ok (pub ++ algo_checksum sha512_256 pub) /\ length pub = (ed25519_compr_len - 1)%nat /\
-    length (algo_checksum sha512_256 pub) = algo_cklen /\ valid_pub 2 pub = true.
+  Lemma canonical_b32_iff al d t u : canonical_b32 b32_enc_nopad al d t = Ok u <-> b32_enc_nopad al d = Ok t.
   Proof.
-    unfold algo_decode. split.
+    unfold canonical_b32. destruct (b32_enc_nopad al d) as [e|x]; cbn [bind]; [|split; discriminate].
+    destruct (list_eqb e t) eqn:E.
+    - apply list_eqb_spec in E. subst e. destruct u. split; reflexivity.
+    - split; [discriminate|]. intros H. apply Ok_inj in H. subst e. rewrite list_eqb_refl in E. discriminate.
+  Qed.
+
+  Theorem algo_accepts_iff s pub :
+    algo_decode sha512_256 valid_pub b32_enc_nopad b32_dec s = Ok pub <->
+    b32_dec None s = Ok (pub ++ algo_checksum sha512_256 pub) /\ algo_encode sha512_256 b32_enc_nopad pub = Ok s /\
+    length pub = (ed25519_compr_len - 1)%nat /\ length (algo_checksum sha512_256 pub) = algo_cklen /\ valid_pub 2 pub = true.
+  Proof.
+    unfold algo_decode, algo_encode. split.
     - destruct (b32_dec None s) as [d|] eqn:D; cbn [bind]; [|discriminate].
+      destruct (canonical_b32 _ _ _ _) eqn:K; cbn [bind]; [|discriminate].
       destruct (validate_length d _) eqn:L; cbn [bind]; [|discriminate]. unfold split_by_checksum.
       destruct (validate_checksum _ _ _) eqn:C; cbn [bind]; [|discriminate].
       destruct (valid_pub 2 _) eqn:V; [|discriminate]. intros H; apply Ok_inj in H; subst pub.
-      apply validate_length_inv in L. apply validate_checksum_iff in C.
+      apply validate_length_inv in L. apply validate_checksum_iff in C. apply canonical_b32_iff in K.
       replace (ed25519_compr_len + algo_cklen - 1)%nat with ((ed25519_compr_len - 1) + algo_cklen)%nat in L by (vm_compute; reflexivity).
-      destruct (split_exact d _ _ L) as (L1 & L2 & S). rewrite <- C. split; [rewrite <- S; reflexivity|]. auto.
-    - intros (D & L & Lc & V). rewrite D. cbn [bind Ok].
+      destruct (split_exact d _ _ L) as (L1 & L2 & S). rewrite <- C, <- S. split; [reflexivity|]. split; [exact K|]. auto.
+    - intros (D & K & L & Lc & V). rewrite D. cbn [bind Ok].
+      rewrite (proj2 (canonical_b32_iff None _ s tt) K). cbn [bind Ok].
       rewrite validate_length_ok by (rewrite app_length, L, Lc; vm_compute; reflexivity). cbn [bind Ok].
       unfold split_by_checksum. rewrite (drop_last_app' algo_cklen), (take_last_app' algo_cklen) by exact Lc.
       unfold validate_checksum. rewrite list_eqb_refl. cbn [bind Ok]. rewrite V. reflexivity.
@@ -70,9 +82,10 @@ Section Generic.
   Qed.
 
   Theorem fil_accepts_iff s h :
-    fil_decode blake2b b32_dec s = Ok h <->
+    fil_decode blake2b b32_enc_nopad b32_dec s = Ok h <->
     exists body, s = fil_prefix ++ (48 + fil_secp_type) :: body /\
       b32_dec (Some fil_alphabet) body = Ok (h ++ fil_checksum blake2b fil_secp_type h) /\
+      b32_enc_nopad (Some fil_alphabet) (h ++ fil_checksum blake2b fil_secp_type h) = Ok body /\
       length h = blake2b160_len /\ length (fil_checksum blake2b fil_secp_type h) = blake2b32_len.
   Proof.
     unfold fil_decode. split.
@@ -80,46 +93,49 @@ Section Generic.
       destruct a as [|t body]; [discriminate|].
       destruct (Z.eqb_spec (Z.of_N t - 48) (Z.of_N fil_secp_type)) as [Et|]; cbn [negb]; [|discriminate].
       destruct (b32_dec (Some fil_alphabet) body) as [d|] eqn:D; cbn [bind]; [|discriminate].
+      destruct (canonical_b32 _ _ _ _) eqn:K; cbn [bind]; [|discriminate].
       destruct (validate_length d _) eqn:L; cbn [bind]; [|discriminate]. unfold split_by_checksum.
       destruct (validate_checksum _ _ _) eqn:C; cbn [bind]; [|discriminate].
       intros H; apply Ok_inj in H; subst h.
-      apply remove_prefix_inv in P. apply validate_length_inv in L. apply validate_checksum_iff in C.
+      apply remove_prefix_inv in P. apply validate_length_inv in L. apply validate_checksum_iff in C. apply canonical_b32_iff in K.
       destruct (split_exact d _ _ L) as (L1 & L2 & S). exists body.
-      assert (t = 48 + fil_secp_type) by lia. subst t. split; [exact P|]. rewrite <- C.
-      split; [rewrite <- S; exact D|]. auto.
-    - intros (body & -> & D & L & Lc). rewrite remove_prefix_app. cbn [bind Ok].
+      assert (t = 48 + fil_secp_type) by lia. subst t. split; [exact P|]. rewrite <- C, <- S.
+      split; [exact D|]. split; [exact K|]. auto.
+    - intros (body & -> & D & K & L & Lc). rewrite remove_prefix_app. cbn [bind Ok].
       assert (T : Z.eqb (Z.of_N (48 + fil_secp_type) - 48) (Z.of_N fil_secp_type) = true) by (vm_compute; reflexivity).
       rewrite T. cbn [negb]. rewrite D. cbn [bind Ok].
+      rewrite (proj2 (canonical_b32_iff (Some fil_alphabet) _ body tt) K). cbn [bind Ok].
       rewrite validate_length_ok by (rewrite app_length, L, Lc; reflexivity). cbn [bind Ok]. unfold split_by_checksum.
       rewrite (drop_last_app' blake2b32_len), (take_last_app' blake2b32_len) by exact Lc.
       unfold validate_checksum. rewrite list_eqb_refl. reflexivity.
   Qed.
 
-  (* Nano: [pad] -- the bytes in front of the key -- is NOT compared with the three zero bytes *)
+  (* Nano: the three bytes in front of the key are compared with the zero bytes the encoder puts there *)
   Theorem nano_accepts_iff s pub :
     nano_decode blake2b valid_pub b32_dec s = Ok pub <->
-    exists a pad, s = nano_prefix ++ a /\
-      b32_dec (Some nano_alphabet) (nano_pad_enc ++ a) = Ok (pad ++ pub ++ nano_checksum blake2b pub) /\
-      length pad = length nano_pad_dec /\ length pub = (ed25519_compr_len - 1)%nat /\
+    exists a, s = nano_prefix ++ a /\
+      b32_dec (Some nano_alphabet) (nano_pad_enc ++ a) = Ok (nano_pad_dec ++ pub ++ nano_checksum blake2b pub) /\
+      length pub = (ed25519_compr_len - 1)%nat /\
       length (nano_checksum blake2b pub) = blake2b40_len /\ valid_pub 3 pub = true.
   Proof.
     unfold nano_decode. split.
     - destruct (validate_and_remove_prefix s nano_prefix) as [a|] eqn:P; cbn [bind]; [|discriminate].
       destruct (b32_dec (Some nano_alphabet) (nano_pad_enc ++ a)) as [d|] eqn:D; cbn [bind]; [|discriminate].
-      destruct (validate_length d _) eqn:L; cbn [bind]; [|discriminate]. unfold split_by_checksum.
+      destruct (validate_length d _) eqn:L; cbn [bind]; [|discriminate].
+      destruct (validate_and_remove_prefix d nano_pad_dec) as [r0|] eqn:Q; cbn [bind]; [|discriminate].
+      unfold split_by_checksum.
       destruct (validate_checksum _ _ _) eqn:C; cbn [bind]; [|discriminate].
       destruct (valid_pub 3 _) eqn:V; [|discriminate]. intros H; apply Ok_inj in H; subst pub.
       apply remove_prefix_inv in P. apply validate_length_inv in L. apply validate_checksum_iff in C.
-      set (k := length nano_pad_dec) in *. set (r := skipn k d) in *.
-      assert (Lr : length r = ((ed25519_compr_len - 1) + blake2b40_len)%nat).
-      { unfold r. rewrite skipn_length, L. vm_compute. reflexivity. }
-      destruct (split_exact r _ _ Lr) as (L1 & L2 & S).
-      exists a, (firstn k d). split; [exact P|]. rewrite <- C.
-      split; [rewrite <- S; unfold r; rewrite firstn_skipn; exact D|].
-      split; [rewrite firstn_length, L; vm_compute; reflexivity|]. auto.
-    - intros (a & pad & -> & D & Lp & L & Lc & V). rewrite remove_prefix_app. cbn [bind Ok]. rewrite D. cbn [bind Ok].
-      rewrite validate_length_ok by (rewrite !app_length, Lp, L, Lc; vm_compute; reflexivity). cbn [bind Ok].
-      rewrite <- Lp, skipn_app, Nat.sub_diag, skipn_all. cbn [app skipn]. unfold split_by_checksum.
+      apply remove_prefix_inv in Q. subst d. rewrite skipn_app, Nat.sub_diag, skipn_all in *. cbn [app skipn] in *.
+      assert (Lr : length r0 = ((ed25519_compr_len - 1) + blake2b40_len)%nat).
+      { rewrite app_length in L. vm_compute in L |- *. lia. }
+      destruct (split_exact r0 _ _ Lr) as (L1 & L2 & S).
+      exists a. split; [exact P|]. rewrite <- C, <- S. split; [exact D|]. auto.
+    - intros (a & -> & D & L & Lc & V). rewrite remove_prefix_app. cbn [bind Ok]. rewrite D. cbn [bind Ok].
+      rewrite validate_length_ok by (rewrite !app_length, L, Lc; vm_compute; reflexivity). cbn [bind Ok].
+      rewrite remove_prefix_app. cbn [bind Ok].
+      rewrite skipn_app, Nat.sub_diag, skipn_all. cbn [app skipn]. unfold split_by_checksum.
       rewrite (drop_last_app' blake2b40_len), (take_last_app' blake2b40_len) by exact Lc.
       unfold validate_checksum. rewrite list_eqb_refl. cbn [bind Ok]. rewrite V. reflexivity.
   Qed.
@@ -362,48 +378,105 @@ Qed.
 
 (* ================================================================== Part 3: the families on the concrete codec *)
 Section Concrete.
-  Variable sha512_256 : list N -> list N.
+  Variables sha512_256 crc16_xmodem : list N -> list N.
   Variable blake2b : nat -> list N -> list N.
   Variable valid_pub : N -> list N -> bool.
-  Variable crc16_xmodem : list N -> list N.
+  Hypothesis s5_len : forall x, length (sha512_256 x) = 32%nat.
+  Hypothesis s5_ok : forall x, bytes_ok (sha512_256 x).
+  Hypothesis crc_len : forall x, length (crc16_xmodem x) = 2%nat.
+  Hypothesis crc_ok : forall x, bytes_ok (crc16_xmodem x).
+  Hypothesis b2b_len : forall n x, length (blake2b n x) = n.
+  Hypothesis b2b_ok : forall n x, bytes_ok (blake2b n x).
 
-  Notation algo_decode := (algo_decode sha512_256 valid_pub b32_dec).
+  Notation algo_decode := (algo_decode sha512_256 valid_pub b32_enc_nopad b32_dec).
   Notation algo_encode := (algo_encode sha512_256 b32_enc_nopad).
   Notation xlm_decode := (xlm_decode valid_pub crc16_xmodem b32_dec).
   Notation xlm_encode := (xlm_encode crc16_xmodem b32_enc_nopad).
-  Notation fil_decode := (fil_decode blake2b b32_dec).
-  Notation fil_encode := (fil_encode blake2b b32_enc_nopad).
+  Notation fil_decode := (fil_decode blake2b b32_enc_nopad b32_dec).
   Notation nano_decode := (nano_decode blake2b valid_pub b32_dec).
   Notation nano_encode := (nano_encode blake2b b32_enc_nopad).
   Notation nim_decode := (nim_decode b32_dec).
 
-  (* Stellar: 35 bytes = 56 symbols, no spare bits: every accepted string IS the encoder's output for the
-     returned key *)
+  Lemma b32_dec_bytes al s d : custom_ok al -> b32_dec al s = Ok d -> bytes_ok d.
+  Proof. intros Ha H. destruct (b32_dec_inv al s d Ha H) as (ds & k & bits & pend & _ & _ & _ & B & _). exact B. Qed.
+
+  (* Algorand: accepted <-> the string is the encoder's output for a valid key *)
+  Theorem algo_accepts_iff_concrete s pub :
+    algo_decode s = Ok pub <->
+    algo_encode pub = Ok s /\ bytes_ok pub /\ length pub = (ed25519_compr_len - 1)%nat /\ valid_pub 2 pub = true.
+  Proof using s5_len s5_ok.
+    split.
+    - intros H. apply algo_accepts_iff in H. destruct H as (D & K & L & _ & V).
+      pose proof (b32_dec_bytes None _ _ I D) as B. apply bytes_ok_app in B. destruct B as [B _]. auto.
+    - intros (K & B & L & V). exact (AddrInst.algo_rt sha512_256 valid_pub s5_len s5_ok pub s B L V K).
+  Qed.
+
+  (* Stellar *)
   Theorem xlm_accepted_is_encoding t s pub : xlm_decode t s = Ok pub ->
     xlm_encode t pub = Ok s /\ valid_pub 2 pub = true /\ length pub = (ed25519_compr_len - 1)%nat.
-  Proof.
+  Proof using Type.
     intros H. apply xlm_accepts_iff in H. destruct H as (D & L & Lc & V). split; [|auto].
     unfold AddrText.xlm_encode. change ([t] ++ pub) with (t :: pub).
     apply (b32_dec_canonical_exact None); [exact I|exact D|].
     rewrite app_length, Lc. cbn [length]. rewrite L. reflexivity.
   Qed.
 
-  (* Nano: 40 bytes = 64 symbols, no spare bits; but the three bytes in front of the key are not checked.
-     What holds: the 64 symbols are the Base32 text of pad ++ key ++ checksum, and if the pad bytes are the zero
-     bytes the encoder puts there the string IS the encoder's output *)
-  Theorem nano_accepted_partial s pub : nano_decode s = Ok pub ->
-    valid_pub 3 pub = true /\ length pub = (ed25519_compr_len - 1)%nat /\
-    exists a pad, s = nano_prefix ++ a /\ length pad = length nano_pad_dec /\
-      b32_enc_nopad (Some nano_alphabet) (pad ++ pub ++ nano_checksum blake2b pub) = Ok (nano_pad_enc ++ a) /\
-      (pad = nano_pad_dec -> nano_encode pub = Ok s).
-  Proof.
-    intros H. apply nano_accepts_iff in H. destruct H as (a & pad & -> & D & Lp & L & Lc & V).
-    split; [exact V|]. split; [exact L|]. exists a, pad. split; [reflexivity|]. split; [exact Lp|].
-    assert (E : b32_enc_nopad (Some nano_alphabet) (pad ++ pub ++ nano_checksum blake2b pub) = Ok (nano_pad_enc ++ a)).
+  Theorem xlm_accepts_iff_concrete t s pub : t < 256 ->
+    (xlm_decode t s = Ok pub <->
+     xlm_encode t pub = Ok s /\ bytes_ok pub /\ length pub = (ed25519_compr_len - 1)%nat /\ valid_pub 2 pub = true).
+  Proof using crc_len crc_ok.
+    intros Ht. split.
+    - intros H. destruct (xlm_accepted_is_encoding t s pub H) as (K & V & L).
+      apply xlm_accepts_iff in H. destruct H as (D & _).
+      pose proof (b32_dec_bytes None _ _ I D) as B. apply bytes_ok_app in B. destruct B as [B _]. inversion B; subst. auto.
+    - intros (K & B & L & V). exact (AddrInst.xlm_rt crc16_xmodem valid_pub crc_len crc_ok t pub s Ht B L V K).
+  Qed.
+
+  (* Filecoin: accepted <-> "f1" followed by the Base32 text of hash ++ checksum, for a 20-byte hash *)
+  Theorem fil_accepts_iff_concrete s h :
+    fil_decode s = Ok h <->
+    bytes_ok h /\ length h = blake2b160_len /\
+    exists body, b32_enc_nopad (Some fil_alphabet) (h ++ fil_checksum blake2b fil_secp_type h) = Ok body /\
+                 s = fil_prefix ++ (48 + fil_secp_type) :: body.
+  Proof using b2b_len b2b_ok.
+    split.
+    - intros H. apply fil_accepts_iff in H. destruct H as (body & -> & D & K & L & _).
+      pose proof (b32_dec_bytes _ _ _ AddrInst.fil_alph_ok D) as B. apply bytes_ok_app in B. destruct B as [B _].
+      split; [exact B|]. split; [exact L|]. exists body. auto.
+    - intros (B & L & body & K & ->). apply fil_accepts_iff. exists body. split; [reflexivity|].
+      assert (Hpl : bytes_ok (h ++ fil_checksum blake2b fil_secp_type h)) by (apply bytes_ok_app; split; [exact B|apply b2b_ok]).
+      split; [exact (AddrInst.b32_rt _ _ _ AddrInst.fil_alph_ok Hpl K)|]. split; [exact K|]. split; [exact L|apply b2b_len].
+  Qed.
+
+  (* every accepted Filecoin string is the encoder's text for the returned hash *)
+  Theorem fil_accepted_is_encoding s h : fil_decode s = Ok h ->
+    length h = blake2b160_len /\
+    exists body, b32_enc_nopad (Some fil_alphabet) (h ++ fil_checksum blake2b fil_secp_type h) = Ok body /\
+                 s = fil_prefix ++ (48 + fil_secp_type) :: body.
+  Proof using Type.
+    intros H. apply fil_accepts_iff in H. destruct H as (body & -> & D & K & L & _). split; [exact L|]. exists body. auto.
+  Qed.
+
+  (* Nano: accepted <-> the string is the encoder's output for a valid key *)
+  Theorem nano_accepted_is_encoding s pub : nano_decode s = Ok pub ->
+    nano_encode pub = Ok s /\ bytes_ok pub /\ length pub = (ed25519_compr_len - 1)%nat /\ valid_pub 3 pub = true.
+  Proof using Type.
+    intros H. apply nano_accepts_iff in H. destruct H as (a & -> & D & L & Lc & V).
+    assert (E : b32_enc_nopad (Some nano_alphabet) (nano_pad_dec ++ pub ++ nano_checksum blake2b pub) = Ok (nano_pad_enc ++ a)).
     { apply (b32_dec_canonical_exact (Some nano_alphabet)); [exact AddrInst.nano_alph_ok|exact D|].
-      rewrite !app_length, Lp, L, Lc. reflexivity. }
-    split; [exact E|]. intros ->. unfold AddrText.nano_encode. rewrite E. cbn [bind Ok].
+      rewrite !app_length, L, Lc. reflexivity. }
+    pose proof (b32_dec_bytes _ _ _ AddrInst.nano_alph_ok D) as B.
+    apply bytes_ok_app in B. destruct B as [_ B]. apply bytes_ok_app in B. destruct B as [B _].
+    split; [|auto]. unfold AddrText.nano_encode. rewrite E. cbn [bind Ok].
     rewrite skipn_app, Nat.sub_diag, skipn_all. reflexivity.
+  Qed.
+
+  Theorem nano_accepts_iff_concrete s pub :
+    nano_decode s = Ok pub <->
+    nano_encode pub = Ok s /\ bytes_ok pub /\ length pub = (ed25519_compr_len - 1)%nat /\ valid_pub 3 pub = true.
+  Proof using b2b_len b2b_ok.
+    split; [apply nano_accepted_is_encoding|].
+    intros (K & B & L & V). exact (AddrInst.nano_rt blake2b valid_pub b2b_len b2b_ok pub s B L V K).
   Qed.
 
   (* Nimiq: 20 bytes = 32 symbols, no spare bits; spaces are free *)
@@ -411,7 +484,7 @@ Section Concrete.
     length d = nim_hash_len /\
     exists body, b32_enc_nopad (Some nim_alphabet) d = Ok body /\
       filter (fun c => negb (c =? 32)) s = nim_prefix ++ nim_checksum body ++ body.
-  Proof.
+  Proof using Type.
     intros H. apply nim_accepts_iff in H. destruct H as (body & E & L & A & D).
     destruct (b32_dec_inv _ _ _ AddrInst.nim_alph_ok D) as (ds & k & bits & pend & Es & Hds & _ & Hd & Hb & Hpend & Hl & Hv).
     cbn [eff] in Es.
@@ -426,87 +499,41 @@ Section Concrete.
     apply (b32_dec_canonical (Some nim_alphabet) ds d 0 AddrInst.nim_alph_ok Hds Hd); [lia|lia|].
     rewrite Hv. change (2 ^ 0) with 1. lia.
   Qed.
-
-  (* Algorand: 36 bytes = 58 symbols with TWO spare bits.  What holds: 58 symbols then a run of '='; the symbols
-     are the regrouping of key ++ checksum with spare bits [pend] < 4; the string is the encoder's output exactly
-     when there is no '=' and the spare bits are zero *)
-  Theorem algo_accepted_partial s pub : algo_decode s = Ok pub ->
-    valid_pub 2 pub = true /\ length pub = (ed25519_compr_len - 1)%nat /\
-    exists ds k pend, s = map (sym32 rfc_alphabet) ds ++ repeat rfc_pad k /\ length ds = 58%nat /\ digits_ok 32 ds /\
-      pend < 4 /\ from_be 32 ds = be_to_int (pub ++ algo_checksum sha512_256 pub) * 4 + pend /\
-      (k = 0%nat -> pend = 0 -> algo_encode pub = Ok s).
-  Proof.
-    intros H. apply algo_accepts_iff in H. destruct H as (D & L & Lc & V). split; [exact V|]. split; [exact L|].
-    destruct (b32_dec_inv None _ _ I D) as (ds & k & bits & pend & Es & Hds & _ & Hd & Hb & Hpend & Hl & Hv).
-    cbn [eff] in Es. rewrite app_length, L, Lc in Hl.
-    change (N.of_nat (ed25519_compr_len - 1 + algo_cklen)) with 36 in Hl.
-    assert (bits = 2 /\ length ds = 58%nat) by lia. destruct H as [-> Lds]. change (2 ^ 2) with 4 in *.
-    exists ds, k, pend. repeat split; auto.
-    intros -> ->. cbn [repeat] in Es. rewrite app_nil_r in Es. subst s. unfold AddrText.algo_encode.
-    apply (b32_dec_canonical None ds _ 2 I Hds Hd); [lia| |rewrite Hv; change (2 ^ 2) with 4; lia].
-    rewrite app_length, L, Lc. change (N.of_nat (ed25519_compr_len - 1 + algo_cklen)) with 36. lia.
-  Qed.
-
-  (* Filecoin: 24 bytes = 39 symbols with THREE spare bits *)
-  Theorem fil_accepted_partial s h : fil_decode s = Ok h ->
-    length h = blake2b160_len /\
-    exists ds k pend, s = fil_prefix ++ (48 + fil_secp_type) :: map (sym32 fil_alphabet) ds ++ repeat rfc_pad k /\
-      length ds = 39%nat /\ digits_ok 32 ds /\ pend < 8 /\
-      from_be 32 ds = be_to_int (h ++ fil_checksum blake2b fil_secp_type h) * 8 + pend /\
-      (k = 0%nat -> pend = 0 ->
-       b32_enc_nopad (Some fil_alphabet) (h ++ fil_checksum blake2b fil_secp_type h) = Ok (map (sym32 fil_alphabet) ds)).
-  Proof.
-    intros H. apply fil_accepts_iff in H. destruct H as (body & -> & D & L & Lc). split; [exact L|].
-    destruct (b32_dec_inv _ _ _ AddrInst.fil_alph_ok D) as (ds & k & bits & pend & Es & Hds & _ & Hd & Hb & Hpend & Hl & Hv).
-    cbn [eff] in Es. rewrite app_length, L, Lc in Hl. change (N.of_nat (blake2b160_len + blake2b32_len)) with 24 in Hl.
-    assert (bits = 3 /\ length ds = 39%nat) by lia. destruct H as [-> Lds]. change (2 ^ 3) with 8 in *.
-    exists ds, k, pend. split; [rewrite Es; reflexivity|]. repeat split; auto.
-    intros _ ->. apply (b32_dec_canonical (Some fil_alphabet) ds _ 3 AddrInst.fil_alph_ok Hds Hd); [lia| |rewrite Hv; change (2 ^ 3) with 8; lia].
-    rewrite app_length, L, Lc. change (N.of_nat (blake2b160_len + blake2b32_len)) with 24. lia.
-  Qed.
 End Concrete.
 
-(* ---- refutations of "every accepted string is the encoder's output" for Algorand, Filecoin, Nano.
-   The hashes are Section variables of the model, so a refutation exhibits an instance: with the constant-zero
-   "hash" and every key valid, the encoder's address of the all-zero key and the accepted variants are concrete
-   strings the kernel evaluates.  (The same variants of REAL addresses are accepted by the library: findings
-   C10-ALGO-NONCANON, C10-FIL-NONCANON, C10-NANO-PADBITS; see harness/props/C10.py.) *)
+(* ---- the non-canonical spellings that the decoders accepted before the repairs (findings C10-ALGO-NONCANON,
+   C10-FIL-NONCANON, C10-NANO-PADBITS) are rejected, although the Base32 layer still decodes them to the same bytes.
+   Instance: constant-zero "hash", every key valid. ---- *)
 Definition zero_hash (_ : list N) : list N := repeat 0 32.
 Definition zero_blake (n : nat) (_ : list N) : list N := repeat 0 n.
 Definition any_valid (_ : N) (_ : list N) : bool := true.
 
-(* "AAAA...A" (58) is the address; "AAA...AB" (spare bits 01) and the address followed by "======" are accepted too *)
-Theorem algo_canonical_refuted : exists s1 s2 s3 pub,
-  algo_encode zero_hash b32_enc_nopad pub = Ok s1 /\ s2 <> s1 /\ s3 <> s1 /\
-  algo_decode zero_hash any_valid b32_dec s1 = Ok pub /\
-  algo_decode zero_hash any_valid b32_dec s2 = Ok pub /\
-  algo_decode zero_hash any_valid b32_dec s3 = Ok pub.
+Theorem base32_noncanonical_rejected :
+  (* Algorand: "AAA...A" (58) is the address; "AAA...AB" (spare bits 01) and the address followed by "======" *)
+  (exists s1 s2 s3 pub d,
+    algo_encode zero_hash b32_enc_nopad pub = Ok s1 /\
+    b32_dec None s1 = Ok d /\ b32_dec None s2 = Ok d /\ b32_dec None s3 = Ok d /\
+    algo_decode zero_hash any_valid b32_enc_nopad b32_dec s1 = Ok pub /\
+    algo_decode zero_hash any_valid b32_enc_nopad b32_dec s2 = Err ValueError /\
+    algo_decode zero_hash any_valid b32_enc_nopad b32_dec s3 = Err ValueError) /\
+  (* Filecoin: "f1aaa...a" (39); last symbol "h" (spare bits 111); a trailing "=" *)
+  (exists s1 s2 s3 pub_u,
+    fil_encode zero_blake b32_enc_nopad pub_u = Ok s1 /\
+    fil_decode zero_blake b32_enc_nopad b32_dec s1 = Ok (zero_blake blake2b160_len pub_u) /\
+    fil_decode zero_blake b32_enc_nopad b32_dec s2 = Err ValueError /\
+    fil_decode zero_blake b32_enc_nopad b32_dec s3 = Err ValueError) /\
+  (* Nano: "nano_111...1" (60); first symbol "4" = 00010 (non-zero pad bits) *)
+  (exists s1 s2 pub,
+    nano_encode zero_blake b32_enc_nopad pub = Ok s1 /\
+    nano_decode zero_blake any_valid b32_dec s1 = Ok pub /\
+    nano_decode zero_blake any_valid b32_dec s2 = Err ValueError).
 Proof.
-  exists (repeat 65 58), (repeat 65 57 ++ [66]), (repeat 65 58 ++ repeat 61 6), (repeat 0 32).
-  split; [vm_compute; reflexivity|]. split; [vm_compute; discriminate|]. split; [vm_compute; discriminate|].
-  repeat split; vm_compute; reflexivity.
-Qed.
-
-(* "f1aaa...a" (39 a) is the address; a last symbol "b".."h" (spare bits 001..111) and a trailing "=" are accepted *)
-Theorem fil_canonical_refuted : exists s1 s2 s3 pub_u,
-  fil_encode zero_blake b32_enc_nopad pub_u = Ok s1 /\ s2 <> s1 /\ s3 <> s1 /\
-  fil_decode zero_blake b32_dec s1 = Ok (zero_blake blake2b160_len pub_u) /\
-  fil_decode zero_blake b32_dec s2 = Ok (zero_blake blake2b160_len pub_u) /\
-  fil_decode zero_blake b32_dec s3 = Ok (zero_blake blake2b160_len pub_u).
-Proof.
-  exists (fil_prefix ++ [49] ++ repeat 97 39), (fil_prefix ++ [49] ++ repeat 97 38 ++ [104]),
-         (fil_prefix ++ [49] ++ repeat 97 39 ++ [61]), [].
-  split; [vm_compute; reflexivity|]. split; [vm_compute; discriminate|]. split; [vm_compute; discriminate|].
-  repeat split; vm_compute; reflexivity.
-Qed.
-
-(* "nano_111...1" (60) is the address; a first symbol with non-zero pad bits ("4" = 00010) is accepted *)
-Theorem nano_canonical_refuted : exists s1 s2 pub,
-  nano_encode zero_blake b32_enc_nopad pub = Ok s1 /\ s2 <> s1 /\
-  nano_decode zero_blake any_valid b32_dec s1 = Ok pub /\
-  nano_decode zero_blake any_valid b32_dec s2 = Ok pub.
-Proof.
-  exists (nano_prefix ++ repeat 49 60), (nano_prefix ++ [52] ++ repeat 49 59), (repeat 0 32).
-  split; [vm_compute; reflexivity|]. split; [vm_compute; discriminate|].
-  split; vm_compute; reflexivity.
+  split; [|split].
+  - exists (repeat 65 58), (repeat 65 57 ++ [66]), (repeat 65 58 ++ repeat 61 6), (repeat 0 32), (repeat 0 36).
+    repeat split; vm_compute; reflexivity.
+  - exists (fil_prefix ++ [49] ++ repeat 97 39), (fil_prefix ++ [49] ++ repeat 97 38 ++ [104]),
+           (fil_prefix ++ [49] ++ repeat 97 39 ++ [61]), [].
+    repeat split; vm_compute; reflexivity.
+  - exists (nano_prefix ++ repeat 49 60), (nano_prefix ++ [52] ++ repeat 49 59), (repeat 0 32).
+    repeat split; vm_compute; reflexivity.
 Qed.
